@@ -182,6 +182,8 @@ class _ParseTreeProcessor(parsimonious.NodeVisitor):
         if len(node.text) == 0:
             # Line is empty, flush comment
             self._flush_comment()
+        # A string literal may span several lines; those line breaks are not end_of_line nodes but count as lines.
+        self._current_line_number += node.text.count("\n")
 
     def visit_end_of_line(self, _n: _Node, _c: _Children) -> None:
         self._current_line_number += 1
